@@ -5,6 +5,7 @@ CONSTANTS
   TypesC <- TypesAll
   Depth = "core"
   FieldSet = "core"
+  Entries <- EntriesUntrusted
   MaxOps = 2
   Heavy <- Heavy3
   HeavyAfter <- NoOps
